@@ -606,6 +606,13 @@ PROPS["C13"]["require"]["quick"]["cases_with_queue_drop_and_connector_behind_nat
 PROPS["C07"]["require"]["quick"]["reaccepts_into_socket_with_established_connection"] = 150
 PROPS["C17"]["require"]["quick"]["udp_forwards_verified_target_on_client_address"] = 1200
 PROPS["C17"]["require"]["quick"]["udp_replies_verified_target_on_client_address"] = 800
+PROPS["C17"]["require"]["quick"]["cases_with_octet_ge_128_beyond_the_first"] = 8000
+PROPS["C07"]["require"]["quick"]["connectors_that_gave_up_during_or_right_after_the_handshake"] = 300
+PROPS["C07"]["require"]["quick"]["connectors_paired_next_to_one_that_gave_up"] = 200
+PROPS["C07"]["require"]["quick"]["connectors_bound_to_the_wildcard_address"] = 300
+PROPS["C06"]["require"]["quick"]["writing_sockets_moved_with_segments_in_flight"] = 20000
+PROPS["C06"]["require"]["quick"]["accepts_issued_after_the_connect"] = 150
+PROPS["C05"]["require"]["quick"]["idle_connected_sockets_moved_between_phases"] = 600
 PROPS["C16"]["require"]["quick"]["responses_verified_range-out-of-bounds"] = 3000
 # ranges with first > last, lengths beyond 32 bits etc. against a lenient content generator (one that returns what it can for any
 # length): whatever the server does with them must be a well-framed response or a close
